@@ -13,29 +13,41 @@
 (* genuine material by cooperating edits (abstract description = the       *)
 (* AccessDecision!fblob TLC enumerated or the seeded generator drew, plus  *)
 (* the concrete bytes chosen for it and optional byte noise); acceptance   *)
-(* is judged by AccessDecision!Admissible on the abstract container.       *)
+(* is judged by AccessDecision!Admissible on the abstract container (which  *)
+(* may carry several SignerInfos: field `co`).                             *)
+(* Strengthening round 2: Reset carries `now` = the clock of the run in     *)
+(* seconds relative to the reference instant the validity bounds of the    *)
+(* documents were rendered against (0 when the reference is the wall       *)
+(* clock); every decision / grant lookup of the run is judged at that      *)
+(* instant.  GrantAt lines = the real find_grant at an explicit instant.   *)
 (***************************************************************************)
 EXTENDS AccessDecision, Json, IOUtils
 
 Rec == ndJsonDeserialize(IOEnv.TRACE)
 
 VARIABLES l, run, doc, subj, st, lastv, viol,
-          forge     \* the container under test since the last Forge line ([on |-> FALSE] otherwise)
-tvars == <<l, run, doc, subj, st, lastv, viol, forge>>
+          forge,    \* the container under test since the last Forge line ([on |-> FALSE] otherwise)
+          now       \* the clock of the run relative to the reference instant of its documents (seconds)
+tvars == <<l, run, doc, subj, st, lastv, viol, forge, now>>
 
 NoDoc == [grants |-> <<>>, gov |-> <<>>]
 NoForge == [on |-> FALSE]
-TraceInit == l = 1 /\ run = 0 /\ doc = NoDoc /\ subj = "" /\ st = "none" /\ lastv = "none" /\ viol = {} /\ forge = NoForge
+TraceInit == l = 1 /\ run = 0 /\ doc = NoDoc /\ subj = "" /\ st = "none" /\ lastv = "none" /\ viol = {} /\ forge = NoForge /\ now = 0
 
 Query(e) == [op |-> e.op, dom |-> e.dom, topic |-> e.topic, parts |-> e.parts]
 
 CheckViol(e) ==
-  IF (e.out = "allow") \in Acceptable(doc, subj, Query(e)) THEN {}
+  IF (e.out = "allow") \in Acceptable(doc, subj, Query(e), now) THEN {}
   ELSE IF e.out = "allow" THEN {"C18_access_granted_against_documents"}
   ELSE {"C18_access_refused_against_documents"}
 
 GrantViol(e) ==
-  IF e.ok /\ (e.has_grant # (GrantIdx(doc, subj) # 0)) THEN {"C18_valid_grant_lookup_wrong"} ELSE {}
+  IF e.ok /\ (e.has_grant # (GrantIdx(doc, subj, now) # 0)) THEN {"C18_valid_grant_lookup_wrong"} ELSE {}
+
+\* the real find_grant at the explicit instant e.t (not judged at exactly the end of a window: left open)
+GrantAtViol(e) ==
+  IF e.ok /\ ~AtEndOfWindow(doc, subj, e.t) /\ (e.has_grant # (GrantIdx(doc, subj, e.t) # 0))
+    THEN {"C18_valid_grant_lookup_wrong"} ELSE {}
 
 VerifyViol(e) ==
   (IF e.out = "accepted" /\ ~(e.same /\ e.signer = e.ca)
@@ -64,31 +76,34 @@ Step ==
   /\ LET e == Rec[l] IN
      CASE e.ev = "Reset" ->
             /\ run' = e.run /\ doc' = e.doc /\ subj' = e.subj /\ st' = "none" /\ lastv' = "none" /\ viol' = {}
-            /\ forge' = NoForge
+            /\ forge' = NoForge /\ now' = e.now
        [] e.ev = "Install" ->
             /\ st' = IF e.ok THEN "ok" ELSE "failed"
             /\ viol' = viol \cup GrantViol(e)
-            /\ UNCHANGED <<run, doc, subj, lastv, forge>>
+            /\ UNCHANGED <<run, doc, subj, lastv, forge, now>>
+       [] e.ev = "GrantAt" ->
+            /\ viol' = viol \cup GrantAtViol(e)
+            /\ UNCHANGED <<run, doc, subj, st, lastv, forge, now>>
        [] e.ev = "Check" ->
             /\ viol' = viol \cup CheckViol(e)
-            /\ UNCHANGED <<run, doc, subj, st, lastv, forge>>
+            /\ UNCHANGED <<run, doc, subj, st, lastv, forge, now>>
        [] e.ev = "Verify" ->
             /\ lastv' = IF e.out = "accepted" /\ e.same /\ e.signer = e.ca THEN "accepted" ELSE "refused"
             /\ viol' = viol \cup VerifyViol(e)
             /\ forge' = NoForge
-            /\ UNCHANGED <<run, doc, subj, st>>
+            /\ UNCHANGED <<run, doc, subj, st, now>>
        [] e.ev = "Forge" ->   \* inputs: abstract container, configured CA, the document its signature VALUE was made for
             /\ forge' = [on |-> TRUE, blob |-> e.blob, ca |-> e.ca, clean |-> (Len(e.noise) = 0)]
             /\ doc' = e.doc /\ lastv' = "none"
-            /\ UNCHANGED <<run, subj, st, viol>>
+            /\ UNCHANGED <<run, subj, st, viol, now>>
        [] e.ev = "FVerify" ->
             /\ lastv' = IF e.out = "accepted" /\ e.same /\ ForgeAdmissible THEN "accepted" ELSE "refused"
             /\ viol' = viol \cup FVerifyViol(e)
-            /\ UNCHANGED <<run, doc, subj, st, forge>>
+            /\ UNCHANGED <<run, doc, subj, st, forge, now>>
        [] e.ev = "Validate" ->
             /\ st' = IF e.ok THEN "ok" ELSE "failed"
             /\ viol' = viol \cup ValidateViol(e)
-            /\ UNCHANGED <<run, doc, subj, lastv, forge>>
+            /\ UNCHANGED <<run, doc, subj, lastv, forge, now>>
   /\ (viol' # viol /\ viol' # {}) =>
         PrintT("VIOL line=" \o ToString(l) \o " run=" \o ToString(run') \o " clauses=" \o ToString(viol' \ viol))
 
